@@ -91,6 +91,19 @@ class Kernel:
         self.lost_candidates = 0
         self._real = {}
 
+    def add_unrelated(self, scripts):
+        """children of the Conductor process that Conductor did not start (inherited / started by a
+        library): they exit whenever the scheduler says so and are reaped by waitpid(-1) like any child"""
+        for sc in scripts:
+            pid = self.next_pid
+            self.next_pid += 1
+            p = Proc(pid)
+            p.unrelated = True
+            p.task = None
+            p.script = dict(sc)
+            p.t_spawn = self.ev("unrelated_child", pid=pid, script=sc)
+            self.procs[pid] = p
+
     # ------------------------------------------------------------------ log
     def ev(self, kind, **data):
         self.t += 1
